@@ -55,6 +55,8 @@ def f16(spec, kind, message):
     (always the case for a zero buffer on an axis with coordinates >= 1e-3, since zero is emulated by 1e9)."""
     if spec["g"]["type"] in ("TimeStamp", "TimeInterval", "BoundingBox") or kind not in GEOS_KINDS:
         return False
+    if kind == "raised" and "KeyError" not in message:
+        return False  # the finding's exception is KeyError('coordinates') (GEOS returned an empty shape); anything else is news
     return scale_ratio(spec) >= 1e6
 
 
@@ -128,7 +130,23 @@ def f18(spec, kind, message):
     return False
 
 
-KNOWN = {"F16-scaled-coordinates-too-large": f16, "F18-mitre-bevel": f18, "F19-non-simple-line": f19}
+def f27(spec, kind, message):
+    """Open-finding classifier F27: the geometry is tiny compared with the buffers (below a fifth of a buffer on both axes in the
+    space the code buffers in).  GEOS simplifies the input outline with a tolerance of 1 % of the buffer distance before it buffers, so
+    concavities / vertices disappear at the larger buffer and the mitre protrusions they caused at the smaller one are not covered."""
+    if kind != "monotone":
+        return False
+    g = spec["g"]
+    if not any(len(pts) >= 3 for pts, _ in _chains(g["type"], g["coordinates"])):
+        return False
+    b = ref_bounds(g["type"], g["coordinates"])
+    tb, fb = spec["b2"]
+    if tb <= 0 or fb <= 0:
+        return False
+    return max((b[2] - b[0]) / tb, (b[3] - b[1]) / fb) < 0.2
+
+
+KNOWN = {"F16-scaled-coordinates-too-large": f16, "F18-mitre-bevel": f18, "F19-non-simple-line": f19, "F27-input-simplified-at-large-buffers": f27}
 
 
 @st.composite
